@@ -30,6 +30,8 @@ inductive Ty where
   /-- `dyn Path + more…`: further bounds are opaque and mention no generic parameter (`Send`, `'static`) -/
   | dynT (global : Bool) (segs : List Seg) (more : List Toks := [])
   | macro (toks : List String)
+  /-- a type behind opaque leading tokens: `for<'x> fn(&'x T)`, `unsafe extern "C" fn(T)` -/
+  | prefixed (pre : List String) (t : Ty)
 inductive Seg where
   | mk (ident : String) (args : List GArg)
   /-- `Fn(A, B) -> C`: parenthesized path arguments -/
@@ -71,6 +73,7 @@ def Ty.toks : Ty → Toks
   | .never => ["!"]
   | .dynT g segs more => "dyn" :: (if g then ["::"] else []) ++ Seg.toksL segs ++ more.flatMap (fun b => "+" :: b)
   | .macro toks => toks
+  | .prefixed pre t => pre ++ t.toks
 def Ty.toksRet : Option Ty → Toks
   | none => []
   | some r => "->" :: r.toks
@@ -132,6 +135,7 @@ def Ty.expandSelf (to : Ty) : Ty → Ty
   | .never => .never
   | .dynT g segs more => .dynT g (Seg.expandSelfL to segs) more
   | .macro toks => .macro toks
+  | .prefixed pre t => .prefixed pre (Ty.expandSelf to t)
 
 def Ty.expandSelfO (to : Ty) : Option Ty → Option Ty
   | none => none
@@ -182,6 +186,7 @@ def Ty.mentions (ps : List String) : Ty → Bool
   | .never => false
   | .dynT g segs _ => headIn ps g segs || Seg.mentionsL ps segs
   | .macro _ => false
+  | .prefixed _ t => t.mentions ps
 def Ty.mentionsO (ps : List String) : Option Ty → Bool
   | none => false
   | some t => t.mentions ps
